@@ -247,6 +247,7 @@ class _Run:
         self.cfg = case['cfg']
         self.out = Outcome()
         self.elog = []          # universal event log
+        self.rejected_on = {}   # (target, parameter) -> description of the last rejected attempt since its last accepted one
         self.step = 0
 
     def viol(self, clause, detail):
@@ -397,6 +398,11 @@ class _Run:
                 if got != exp or type(got) is not type(exp):
                     kind = 'linked' if ref is not None else 'unlinked'
                     clause = 'C08.mirror' if ref is not None else 'C08.unlink'
+                    if (ti, pn) in self.rejected_on:
+                        # the parameter stopped behaving as the model's (unchanged) link map says right after a
+                        # rejected attempt on it: the rejected attempt had an effect on the links
+                        clause = 'C02.links'
+                        where = f"{where}; earlier rejected attempt: {self.rejected_on[(ti, pn)]}"
                     self.viol(clause, f"{where}: T{ti}.{pn} ({kind}{' to ' + str(ref) if ref else ''}) holds {got!r}, expected {exp!r}; "
                                       f"sources {self.msrc}")
                     return
@@ -439,6 +445,7 @@ class _Run:
             except Exception as e:      # noqa
                 self.viol('C08.exception', f"{what} raised {type(e).__name__}: {str(e)[:160]}")
                 return False
+            self.rejected_on.pop((ti, pn), None)
             return True
         snap = self.snapshot()
         linked = ti is not None and pn in self.links[ti]
@@ -446,6 +453,8 @@ class _Run:
             fn()
         except (ValueError, TypeError):
             self.out.stats['reject.' + what.split(' ')[0]] += 1
+            if ti is not None:
+                self.rejected_on[(ti, pn)] = what
             if linked:
                 self.out.stats['probe.reject_on_linked_parameter'] += 1
             self.compare_snap(snap, f"rejected {what}")
@@ -525,20 +534,23 @@ class _Run:
                 return
             cm, pn, oldv, oldlink = self.uctx[ti].pop()
             restorable = oldlink is None or valid_for(pn, eval_ref(oldlink, self.msrc))
+            # a reference whose source is tainted may hold a stale (cached) value: either outcome is acceptable
+            stale = oldlink is not None and bool(ref_sources(oldlink) & self.tainted)
             try:
                 cm.__exit__(None, None, None)
             except Exception as e:      # noqa
-                if restorable:
+                if restorable and not stale:
                     self.viol('C08.update_ctx', f"leaving the update context of T{ti}.{pn} raised {type(e).__name__}: {str(e)[:120]}")
                 # the reference to restore currently resolves to an invalid value: restoring it is a rejected
                 # assignment, the parameter keeps the value it had inside the context and stays unlinked
                 return
-            if not restorable:
+            if not restorable and not stale:
                 self.viol('C02.accepted', f"leaving the update context of T{ti}.{pn} re-linked {oldlink} although it resolves to an invalid value")
                 return
             if oldlink is not None:
                 self.links[ti][pn] = oldlink
-                self.mval[ti][pn] = eval_ref(oldlink, self.msrc)
+                if restorable:
+                    self.mval[ti][pn] = eval_ref(oldlink, self.msrc)
             else:
                 self.links[ti].pop(pn, None)
                 self.mval[ti][pn] = oldv
